@@ -62,8 +62,10 @@ structure Inv (k : Nat) (n : Option Nat) (s : State) : Prop where
   size : s.futures.length ≤ k
   unfinished_tracked : ∀ i, i < s.submitted → s.ended i = none → i ∈ s.futures
   quota : ∀ m, n = some m → s.submitted ≤ m
+  /-- the submit loop is left without an exception only through one of its three `break`s:
+  stop flag, `n_trials` reached, `timeout` elapsed -/
   drained_why : (s.phase = .drained ∨ s.phase = .exited .ok) →
-    s.stop = true ∨ quotaReached n s.submitted = true
+    s.stop = true ∨ quotaReached n s.submitted = true ∨ s.timedOut = true
 
 theorem inv_init (k : Nat) (n : Option Nat) : Inv k n init := by
   constructor <;> simp [init]
@@ -277,6 +279,27 @@ theorem inv_waitAll (k : Nat) (n : Option Nat) (s s' : State) (hi : Inv k n s)
     · intro _; exact hwhy
   · cases h
 
+theorem inv_timeout (k : Nat) (n : Option Nat) (s s' : State) (hi : Inv k n s)
+    (h : step k n s .timeout = some s') : Inv k n s' := by
+  simp only [step] at h
+  split at h
+  · rename_i hph
+    cases h
+    constructor
+    · exact hi.fut_lt
+    · exact hi.begun_lt
+    · exact hi.ended_begun
+    · exact hi.tracked
+    · exact hi.cands_real
+    · exact hi.drained_empty
+    · exact hi.exited
+    · exact hi.size
+    · exact hi.unfinished_tracked
+    · exact hi.quota
+    · intro hd; simp only [] at hd; rw [hph] at hd
+      rcases hd with hd | hd <;> cases hd
+  · cases h
+
 theorem inv_exit (k : Nat) (n : Option Nat) (s s' : State) (r : Res) (hi : Inv k n s)
     (h : step k n s (.exit r) = some s') : Inv k n s' := by
   simp only [step] at h
@@ -329,6 +352,7 @@ theorem inv_step (k : Nat) (n : Option Nat) (s s' : State) (e : Event) (hi : Inv
   | stopCalled i => exact inv_stop k n s s' i hi h
   | finish i r => exact inv_finish k n s s' i r hi h
   | waitFirst c => exact inv_waitFirst k n s s' c hi h
+  | timeout => exact inv_timeout k n s s' hi h
   | waitAll => exact inv_waitAll k n s s' hi h
   | exit r => exact inv_exit k n s s' r hi h
 
